@@ -1,0 +1,39 @@
+//go:build verif
+
+package gocty
+
+// Contracts for govc (C18: decoding a number into a Go numeric type). Comment-only file.
+// reflect is an external: a settable reflect.Value is a reference into the typed heaps
+// (see /verif/spec/externals.ctr).
+//
+//@ func gocty.fromCtyNumberInt
+//@   tags C18
+//@   requires (and (not (= bf 0)) (bits_ok (rt_bits (rv_type target))))
+//@   borrows path
+//@   writes Int (reflect.Value.ptr target)
+//@   let c (select F.math/big.Float bf)
+//@   let bits (rt_bits (rv_type target))
+//@   ensures[C18] representable_iff: (= (= result nil.Any) (and (= (bf.acc64 c) 0) (<= (int_min bits) (bf.int64 c)) (<= (bf.int64 c) (int_max bits))))
+//@   ensures[C18] stored: (=> (= result nil.Any) (= (select $H<Int> (reflect.Value.ptr target)) (bf.int64 c)))
+//@   ensures[C18] untouched: (=> (not (= result nil.Any)) (= (select $H<Int> (reflect.Value.ptr target)) (select (old $H<Int>) (reflect.Value.ptr target))))
+//
+//@ func gocty.fromCtyNumberUInt
+//@   tags C18
+//@   requires (and (not (= bf 0)) (bits_ok (rt_bits (rv_type target))))
+//@   borrows path
+//@   writes Int (reflect.Value.ptr target)
+//@   let c (select F.math/big.Float bf)
+//@   let bits (rt_bits (rv_type target))
+//@   ensures[C18] representable_iff: (= (= result nil.Any) (and (= (bf.accu64 c) 0) (<= (bf.uint64 c) (uint_max bits))))
+//@   ensures[C18] stored: (=> (= result nil.Any) (= (select $H<Int> (reflect.Value.ptr target)) (bf.uint64 c)))
+//@   ensures[C18] untouched: (=> (not (= result nil.Any)) (= (select $H<Int> (reflect.Value.ptr target)) (select (old $H<Int>) (reflect.Value.ptr target))))
+//
+//@ func gocty.fromCtyNumberFloat
+//@   tags C18
+//@   requires (and (not (= bf 0)) (or (= (rv_kind target) 13) (= (rv_kind target) 14)))
+//@   borrows path
+//@   writes F64 (reflect.Value.ptr target)
+//@   let c (select F.math/big.Float bf)
+//@   ensures[C18] no_invented_infinity: (=> (and (= result nil.Any) (not (= (bf.accf64 c) 0))) (not (f64_isinf (bf.f64 c))))
+//@   ensures[C18] exact_or_rounded: (=> (= result nil.Any) (= (select $H<F64> (reflect.Value.ptr target)) (ite (= (rv_kind target) 13) (f64.to_f32 (bf.f64 c)) (bf.f64 c))))
+//@   ensures[C18] no_silent_overflow: (=> (and (= result nil.Any) (not (f64_isinf (bf.f64 c)))) (not (f64_isinf (select $H<F64> (reflect.Value.ptr target)))))
